@@ -125,7 +125,7 @@ func (m *modelL1) stepCreate(x *ophosttypes.MsgCreateBridge, bc blockCtx) stepOu
 	chall, okCh := validAddr(c.Challenger)
 	if !okP || !okCh || c.BatchInfo.ChainType == ophosttypes.BatchInfo_CHAIN_TYPE_UNSPECIFIED || c.BatchInfo.Submitter == "" ||
 		c.SubmissionInterval == 0 || c.SubmissionStartHeight == 0 || len(c.Metadata) > ophosttypes.MaxMetadataLength {
-		p.failBecause("create.invalid-config", "invalid-config")
+		p.failBecause("create.invalid-config", "invalid-config", "C19", "C12", "C10", "C05")
 	}
 	if c.SubmissionInterval < 0 && p.Kind != mustFail {
 		// the properties say nothing about negative submission intervals
@@ -194,7 +194,7 @@ func (m *modelL1) stepDeposit(x *ophosttypes.MsgInitiateTokenDeposit, bc blockCt
 	sender, oks := validAddr(x.Sender)
 	switch {
 	case !oks || x.BridgeId == 0:
-		p.failBecause("deposit.invalid", "invalid-deposit-msg")
+		p.failBecause("deposit.invalid", "invalid-deposit-msg", "C10", "C01")
 	case len(x.To) == 0:
 		// the L2 would refund it with an empty sender, which the L1 can never pay out
 		p.failBecause("deposit.invalid", "invalid-deposit:empty-recipient", "C10", "C04", "C08", "C07")
@@ -254,7 +254,7 @@ func (m *modelL1) stepDeposit(x *ophosttypes.MsgInitiateTokenDeposit, bc blockCt
 func (m *modelL1) stepPropose(x *ophosttypes.MsgProposeOutput, bc blockCtx) stepOut {
 	var p pred
 	if _, ok := validAddr(x.Proposer); !ok || x.BridgeId == 0 || len(x.OutputRoot) != 32 {
-		p.failBecause("propose.invalid", "invalid-propose-msg")
+		p.failBecause("propose.invalid", "invalid-propose-msg", "C11", "C12")
 	}
 	b := m.Bridges[x.BridgeId]
 	if b == nil {
@@ -300,7 +300,7 @@ func (m *modelL1) stepPropose(x *ophosttypes.MsgProposeOutput, bc blockCtx) step
 func (m *modelL1) stepDelete(x *ophosttypes.MsgDeleteOutput, bc blockCtx) stepOut {
 	var p pred
 	if _, ok := validAddr(x.Challenger); !ok || x.BridgeId == 0 || x.OutputIndex == 0 {
-		p.failBecause("delete.invalid", "invalid-delete-msg")
+		p.failBecause("delete.invalid", "invalid-delete-msg", "C11", "C12", "C05")
 	}
 	b := m.Bridges[x.BridgeId]
 	if b == nil {
@@ -467,7 +467,7 @@ func (m *modelL1) stepRole(authority string, bridgeID uint64, role, newAddr stri
 	_, ok1 := validAddr(authority)
 	newBz, ok2 := validAddr(newAddr)
 	if !ok1 || !ok2 || bridgeID == 0 {
-		p.failBecause("role.invalid", "invalid-role-msg")
+		p.failBecause("role.invalid", "invalid-role-msg", "C12")
 	}
 	b := m.Bridges[bridgeID]
 	if b == nil {
@@ -515,7 +515,7 @@ func (m *modelL1) stepRole(authority string, bridgeID uint64, role, newAddr stri
 func (m *modelL1) stepBatchInfo(x *ophosttypes.MsgUpdateBatchInfo, bc blockCtx) stepOut {
 	var p pred
 	if _, ok := validAddr(x.Authority); !ok || x.BridgeId == 0 || x.NewBatchInfo.ChainType == ophosttypes.BatchInfo_CHAIN_TYPE_UNSPECIFIED || x.NewBatchInfo.Submitter == "" {
-		p.failBecause("batchinfo.invalid", "invalid-batchinfo-msg")
+		p.failBecause("batchinfo.invalid", "invalid-batchinfo-msg", "C12")
 	}
 	b := m.Bridges[x.BridgeId]
 	if b == nil {
@@ -548,7 +548,7 @@ func (m *modelL1) stepBatchInfo(x *ophosttypes.MsgUpdateBatchInfo, bc blockCtx) 
 func (m *modelL1) stepMetadata(x *ophosttypes.MsgUpdateMetadata, bc blockCtx) stepOut {
 	var p pred
 	if _, ok := validAddr(x.Authority); !ok || x.BridgeId == 0 || len(x.Metadata) > ophosttypes.MaxMetadataLength {
-		p.failBecause("metadata.invalid", "invalid-metadata-msg")
+		p.failBecause("metadata.invalid", "invalid-metadata-msg", "C12", "C19")
 	}
 	b := m.Bridges[x.BridgeId]
 	if b == nil {
@@ -591,7 +591,7 @@ func (m *modelL1) stepMetadata(x *ophosttypes.MsgUpdateMetadata, bc blockCtx) st
 func (m *modelL1) stepOracleCfg(x *ophosttypes.MsgUpdateOracleConfig, bc blockCtx) stepOut {
 	var p pred
 	if _, ok := validAddr(x.Authority); !ok || x.BridgeId == 0 {
-		p.failBecause("oraclecfg.invalid", "invalid-oraclecfg-msg")
+		p.failBecause("oraclecfg.invalid", "invalid-oraclecfg-msg", "C12")
 	}
 	b := m.Bridges[x.BridgeId]
 	if b == nil {
@@ -610,7 +610,7 @@ func (m *modelL1) stepOracleCfg(x *ophosttypes.MsgUpdateOracleConfig, bc blockCt
 func (m *modelL1) stepParams(x *ophosttypes.MsgUpdateParams, bc blockCtx) stepOut {
 	var p pred
 	if _, ok := validAddr(x.Authority); !ok || x.Params == nil || x.Params.RegistrationFee.Validate() != nil {
-		p.failBecause("params.invalid", "invalid-params-msg")
+		p.failBecause("params.invalid", "invalid-params-msg", "C12")
 	}
 	if x.Authority != m.Gov {
 		p.failBecause("auth.update-params", "update-params-by-non-gov", "C12")
@@ -624,7 +624,7 @@ func (m *modelL1) stepParams(x *ophosttypes.MsgUpdateParams, bc blockCtx) stepOu
 func (m *modelL1) stepRecordBatch(x *ophosttypes.MsgRecordBatch, bc blockCtx) stepOut {
 	var p pred
 	if _, ok := validAddr(x.Submitter); !ok || x.BridgeId == 0 || len(x.BatchBytes) == 0 {
-		p.failBecause("recordbatch.invalid", "invalid-recordbatch-msg")
+		p.failBecause("recordbatch.invalid", "invalid-recordbatch-msg", "C12")
 	}
 	return stepOut{P: p}
 }
@@ -634,7 +634,7 @@ func (m *modelL1) stepBankSend(x *banktypes.MsgSend, bc blockCtx) stepOut {
 	from, ok1 := validAddr(x.FromAddress)
 	to, ok2 := validAddr(x.ToAddress)
 	if !ok1 || !ok2 || !x.Amount.IsValid() || !x.Amount.IsAllPositive() {
-		p.failBecause("send.invalid", "invalid-send")
+		p.failBecause("send.invalid", "invalid-send", "C01", "C09")
 		return stepOut{P: p}
 	}
 	for _, c := range x.Amount {
